@@ -4,6 +4,7 @@ package main
 
 import (
 	"fmt"
+	"math/big"
 	"go/token"
 	"go/types"
 	"sort"
@@ -264,7 +265,8 @@ func (x *X) anyRef(v Term) Term {
 		if x.enc.bv {
 			le = "bvsle"
 		}
-		x.vc.decl(fmt.Sprintf("(define-fun wfslice ((s Slice)) Bool (and (<= 0 (sbase s)) (%s %s (soff s)) (%s %s (slen s)) (%s (slen s) (scap s))))", le, z, le, z, le))
+		mx := x.enc.intConstW(big.NewInt(0x3fffffffffffffff), 64).S
+		x.vc.decl(fmt.Sprintf("(define-fun wfslice ((s Slice)) Bool (and (<= 0 (sbase s)) (%s %s (soff s)) (%s %s (slen s)) (%s (slen s) (scap s)) (%s (scap s) %s) (%s (soff s) %s)))", le, z, le, z, le, le, mx, le, mx))
 		x.vc.decl("(define-fun wfany ((v Any)) Bool (and (<= 0 (anyref v)) (=> ((_ is ASlice) v) (wfslice (aslice v))) (=> ((_ is APtr) v) (< 0 (aptr v))) (=> ((_ is AErr) v) (not (= 0 (aerr v))))))")
 	}
 	return app(SInt, "anyref", v)
